@@ -145,4 +145,6 @@ def run(ctx):
     res = relcorr.memo_oracle(ctx, res, 'C08')
     res = colreuse.add(ctx, res, 'C08')
     from props import colmodel
-    return colmodel.add(ctx, res, 'C08')
+    res = colmodel.add(ctx, res, 'C08')
+    from props import crossproc
+    return crossproc.add(ctx, res, 'C08')
